@@ -139,6 +139,16 @@ class _Transformer(ast.NodeTransformer):
         self.generic_visit(node)
         import copy
 
+        if isinstance(node.target, ast.Subscript):
+            # container and index are evaluated once, then the old element is read, then the
+            # value is evaluated (Python's order)
+            call = ast.Call(ast.Name("_augsub", ast.Load()),
+                            [node.target.value, node.target.slice,
+                             ast.Lambda(ast.arguments(posonlyargs=[], args=[], kwonlyargs=[], kw_defaults=[], defaults=[]),
+                                        node.value),
+                             ast.Constant(type(node.op).__name__)], [])
+            return ast.Expr(call)
+
         load = copy.deepcopy(node.target)
         for n in ast.walk(load):
             if hasattr(n, "ctx"):
@@ -152,6 +162,17 @@ class _Transformer(ast.NodeTransformer):
         if isinstance(node.func, ast.Name) and node.func.id in ("abs", "pow", "divmod", "int", "round", "len"):
             return self._wrap(node)
         return node
+
+
+_OPS = {"Add": lambda a, b: a + b, "Sub": lambda a, b: a - b, "Mult": lambda a, b: a * b,
+        "FloorDiv": lambda a, b: a // b, "Mod": lambda a, b: a % b, "Div": lambda a, b: a / b,
+        "BitAnd": lambda a, b: a & b, "BitOr": lambda a, b: a | b, "BitXor": lambda a, b: a ^ b,
+        "LShift": lambda a, b: a << b, "RShift": lambda a, b: a >> b, "Pow": lambda a, b: a ** b}
+
+
+def _augsub(container, index, value_thunk, op):
+    old = container[index]
+    container[index] = w64(_OPS[op](old, value_thunk()))
 
 
 def norm(v):
@@ -188,6 +209,7 @@ def run_ref(src: str, entry: str = "main", max_results: int = 2000, extra_env: d
         "panic": panic,
         "exit": exit_,
         "_w": w64,
+        "_augsub": _augsub,
         "owned": None,
         "nat": int,
         "comptime": lambda x: x,
